@@ -216,6 +216,27 @@ func lemmaSameBytes(a, b []byte) {}
 // EOF it is an error, otherwise ErrShortSrc); after a successful call at EOF
 // the decoder is back in its initial (ASCII) state.
 //
+// endsWithShift: the first n bytes of src end with a complete base64 shift
+// "&...-" (at least one byte between '&' and the closing '-', which is the
+// first '-' after that '&'); "&-" is the escaped ampersand, not a shift.
+//
+//@ pure
+func endsWithShift(src []byte, n int) bool {
+	return n >= 3 && src[n-1] == '-' && __exists(func(s int) bool {
+		return 0 <= s && s < n-2 && src[s] == '&' && __forall(func(k int) bool { return !(s < k && k < n-1) || src[k] != '-' })
+	})
+}
+
+// shiftsClosed: every '&' among the first n bytes is followed by a '-' within
+// them (every unit that starts with '&' is complete).
+//
+//@ pure
+func shiftsClosed(src []byte, n int) bool {
+	return __forall(func(s int) bool {
+		return !(0 <= s && s < n && src[s] == '&') || __exists(func(k int) bool { return s < k && k < n && src[k] == '-' })
+	})
+}
+
 //@ func (d *decoder) Transform(dst, src []byte, atEOF bool) (nDst, nSrc int, err error)
 //@   props C16
 //@   requires d != nil
@@ -226,6 +247,7 @@ func lemmaSameBytes(a, b []byte) {}
 //@   ensures 0 <= nSrc && nSrc <= len(src)
 //@   ensures err == nil ==> nSrc == len(src)
 //@   ensures err == nil && atEOF ==> d.ascii
+//@   ensures err == nil && !atEOF && len(src) > 0 ==> d.ascii == !endsWithShift(old(src), len(src))
 //@   ensures err == nil ==> forall k int :: 0 <= k && k < len(src) ==> printable(old(src[k]))
 //@   ensures !old(d.ascii) && len(src) >= 2 && old(src[0]) == '&' && old(src[1]) != '-' ==> err != nil
 //@   ensures err == transform.ErrShortSrc ==> !atEOF
@@ -234,6 +256,8 @@ func lemmaSameBytes(a, b []byte) {}
 //@   loop 0 invariant 0 <= i && i <= len(src) && nSrc1 == i && 0 <= nDst1 && nDst1 <= len(dst)
 //@   loop 0 invariant forall k int :: 0 <= k && k < len(src) ==> src[k] == old(src[k])
 //@   loop 0 invariant i == 0 ==> d.ascii == old(d.ascii)
+//@   loop 0 invariant i > 0 ==> d.ascii == !endsWithShift(src, i)
+//@   loop 0 invariant shiftsClosed(src, i)
 //@   loop 0 invariant forall k int :: 0 <= k && k < i ==> printable(src[k])
 //@   loop 0 invariant !old(d.ascii) && len(src) >= 2 && old(src[0]) == '&' && old(src[1]) != '-' ==> i == 0
 //@   loop 0 decreases len(src) - i
@@ -247,7 +271,7 @@ func lemmaSameBytes(a, b []byte) {}
 //@   loop 2 vars (i int)
 //@   loop 2 locals (start int)
 //@   loop 2 invariant 0 < i && i <= len(src) && start <= i
-//@   loop 2 invariant forall k int :: start <= k && k < i ==> src[k] != 13 && src[k] != 10
+//@   loop 2 invariant forall k int :: start <= k && k < i ==> src[k] != 13 && src[k] != 10 && src[k] != '-'
 //@   loop 2 decreases len(src) - i
 
 // Every decoder / encoder handed out has a transformer of its own: the decoder
